@@ -21,6 +21,7 @@ RULE = ('Exhaustive: all 1555 strings of length <= 4 over {a . 0 , ] }} in 7 emb
         'and unequal values in a run never share a text. Non-trivial: a string or key contains two adjacent characters from {. 0 , ] }} or '
         'a container mixes numbers and strings; distinct by content hash.')
 RULE += " Also: strings made of JSON's own words and a trailing backslash, comment markers (/* */ // <!--), one string with 2 500 brackets; values in which one array / object is stored twice (shared, acyclic). Round 5: arrays of 255-1000 numbers, documents of more than 1 MiB with strings ending in a backslash, with and without indent."
+RULE += ' Round 7: one case in three first puts a value without a JSON form (non-finite number, the container itself) inside the container, lets jsonStringify fail on it (compact and indented), takes it out again and only then runs the round trip on the very same container.'
 ASSUMPTIONS = [
     'json.loads (CPython) is the standard JSON parser used as the second, independent reader',
     'values contain only null, booleans, finite numbers, strings, arrays and string-keyed objects (the property\'s domain)',
